@@ -114,6 +114,11 @@ trait Z: Zeroize + Sized + PartialEq + core::fmt::Debug + 'static {
     fn random(r: &mut Rng) -> Self;
     fn zeroed() -> Self;
     const COUNTED: bool = false;
+    /// a value whose every byte is zero, where the type has one (prior content that already
+    /// *looks* wiped although the element's own zeroized value is something else)
+    fn all_zero_bytes() -> Option<Self> {
+        None
+    }
 }
 impl Z for u8 {
     const NAME: &'static str = "u8";
@@ -126,6 +131,9 @@ impl Z for u8 {
 }
 impl Z for u64 {
     const NAME: &'static str = "u64";
+    fn all_zero_bytes() -> Option<u64> {
+        Some(0)
+    }
     fn random(r: &mut Rng) -> u64 {
         r.next_u64() | 1
     }
@@ -144,6 +152,14 @@ impl Z for [u8; 3] {
 }
 impl Z for Mark {
     const NAME: &'static str = "Mark";
+    fn all_zero_bytes() -> Option<Mark> {
+        // built in zeroed storage so that the padding byte is zero as well
+        let mut m = core::mem::MaybeUninit::<Mark>::zeroed();
+        unsafe {
+            m.as_mut_ptr().write_bytes(0, 1);
+            Some(m.assume_init())
+        }
+    }
     fn random(r: &mut Rng) -> Mark {
         Mark { a: r.next_u64() as u32 | 1, b: r.next_u64() as u16 | 1, flag: true }
     }
@@ -172,6 +188,9 @@ impl Z for GA<u8, U3> {
 }
 impl Z for GA<Mark, U2> {
     const NAME: &'static str = "GA<Mark,2>";
+    fn all_zero_bytes() -> Option<Self> {
+        Some(GA::<Mark, U2>::generate(|_| Mark::all_zero_bytes().unwrap()))
+    }
     fn random(r: &mut Rng) -> Self {
         GA::<Mark, U2>::generate(|_| Mark::random(r))
     }
@@ -187,10 +206,18 @@ trait ZcLen {
 struct L<const K: usize>;
 
 fn zero_case<E: Z, N: generic_array::ArrayLength>(st: &mut Stats, seed: u64) {
+    zero_case_with::<E, N>(st, seed, false);
+    if E::all_zero_bytes().is_some() {
+        zero_case_with::<E, N>(st, seed, true);
+    }
+}
+
+fn zero_case_with<E: Z, N: generic_array::ArrayLength>(st: &mut Stats, seed: u64, prior_all_zero: bool) {
     let n = N::USIZE;
-    st.check_case("C19", "zeroize", E::NAME, || format!("C19 zeroize {} N={n}", E::NAME), n > 0, || {
+    let tag = if prior_all_zero { " prior=all-zero-bytes" } else { "" };
+    st.check_case("C19", "zeroize", E::NAME, || format!("C19 zeroize {} N={n}{tag}", E::NAME), n > 0, || {
         let mut rng = Rng::for_case(seed ^ 0x19, n as u64);
-        let mut a: GA<E, N> = GA::<E, N>::generate(|_| E::random(&mut rng));
+        let mut a: GA<E, N> = GA::<E, N>::generate(|_| if prior_all_zero { E::all_zero_bytes().unwrap() } else { E::random(&mut rng) });
         let base = a.as_ptr() as usize;
         VISITS.with(|v| v.borrow_mut().clear());
         a.zeroize();
